@@ -283,6 +283,17 @@ func c17Levels(tier string) []core.Level {
 				}
 			}
 		}},
+		{Name: "loader fails once beyond the last load of a fault-free rendering (load L+1 .. 2L+2): a call that succeeds delivers everything, a call that fails a prefix (ExecuteSafe: nothing); 8 templates whose output depends on how often they are rendered (counting callbacks, root-level sets reading their own previous value): ExecuteSafe delivers Execute's bytes and calls the callbacks as often", Gen: func(emit func(core.Case)) {
+			prep()
+			for _, b := range bases {
+				for j := b.L + 1; j <= 2*b.L+2; j++ {
+					emit(core.Case{Fam: "loadlate", Src: b.it.Src, Args: []string{b.it.Name}, N: []int{j}})
+				}
+			}
+			for i := range c17OnceTpls {
+				emit(core.Case{Fam: "once", Src: c17OnceTpls[i], Args: []string{"once"}, N: []int{i}})
+			}
+		}},
 		{Name: "run-time error (undefined filter / undefined function / non-iterable) placed at every position", Gen: func(emit func(core.Case)) {
 			prep()
 			for _, b := range bases {
@@ -361,6 +372,22 @@ var c17ArgForms = []string{
 	"a{% block b %}{{ block(ERR) }}{% endblock %}b",
 	"a{{ a + ERR * 2 }}b{{ not ERR }}",
 	"a{{ ERR .. 3 }}b",
+	// the failing expression as the first or a middle one of several arguments / elements; the later ones are fine
+	"a{{ f(ERR, 1) }}b",
+	"a{{ f(1, ERR, 2) }}b",
+	"a{{ f(1, 2, ERR) }}b",
+	"a{{ a|wrap(ERR, 1) }}b",
+	"a{{ a is divisible by(ERR, 1) }}b",
+	"{% from 'macros' import m %}a{{ m(ERR, 1) }}b",
+	"{% from 'macros' import m as mm2 %}a{{ mm2(ERR, 1, 2) }}b",
+	"{% import 'macros' as mm %}a{{ mm.m(ERR, 1) }}b",
+	"{% macro m(x, y) %}<{{ x }}{{ y }}>{% endmacro %}a{{ _self.m(ERR, 1) }}b",
+	"{% macro m(x, y) %}<{{ x }}{{ y }}>{% endmacro %}a{{ _self.m(1, ERR, 2) }}b",
+	"a{{ [ERR, 1]|up }}b",
+	"a{{ {'k': ERR, 'j': 1}.j }}b",
+	"a{{ \"x#{ERR}y#{1}z\" }}b",
+	"a{% include 'inc' with {'a': ERR, 'b': 1} %}b",
+	"a{{ obj.Add(1, ERR) }}b",
 }
 
 // c17RunFS: names that the filesystem loader cannot deliver (directories, the empty name, missing files, a path
@@ -457,6 +484,18 @@ func c17RunArg(c core.Case) core.Result {
 	return res
 }
 
+// c17OnceTpls: templates whose output depends on how often they are rendered with the same environment and context
+var c17OnceTpls = []string{
+	"a{{ count() }}b",
+	"{% set n = n + 1 %}{{ n }}",
+	"{% set n = n + 1 %}before|{% if n > 2 %}{{ n % 0 }}{% endif %}after",
+	"{{ count() }}{% if count() > 2 %}{{ nofunc() }}{% endif %}x",
+	"{% for i in l %}{{ count() }},{% endfor %}{% include 'inc' %}{{ count() }}",
+	"{% set s = s ~ 'x' %}{{ s }}{% set l = l|length %}{{ l }}",
+	"{% extends 'base2' %}{% block a %}{{ count() }}{% set n = n * 2 %}{{ n }}{% endblock %}",
+	"{% set n = n + 1 %}{% include 'inc' with {'a': n} %}{{ n }}",
+}
+
 var c17RtForms = []string{"{{ a|nofilter }}", "{{ nofunc() }}", "{% for qq in 5 %}{% endfor %}"}
 var c17MarkForm = "{{ mark() }}"
 
@@ -546,6 +585,82 @@ func c17Run(c core.Case) core.Result {
 			return core.Violation("safe-wrote-on-failure", fmt.Sprintf("ExecuteSafe of %q with load %d failing: err=%v, wrote %q", name, j, s.err, s.w.chunks))
 		}
 		return core.Okay(true, fmt.Sprint(r.w.accepted.String(), j))
+	case "loadlate":
+		// the loader fails at a load that a single rendering never reaches: a call that succeeds delivers the complete
+		// output, one that fails (an implementation may load more often) delivers a prefix - nothing, for ExecuteSafe
+		j := c.N[0]
+		if ref.err != nil {
+			return core.Skipped("self-failing")
+		}
+		for _, safe := range []bool{false, true} {
+			r := c17Exec(c.Src, safe, 0, 0, j)
+			if r.pan != "" {
+				return core.Violation("panic", fmt.Sprintf("safe=%v panicked: %s", safe, r.pan))
+			}
+			got := r.w.accepted.String()
+			if r.err != nil && safe && r.w.calls != 0 {
+				return core.Violation("safe-wrote-on-failure", fmt.Sprintf("ExecuteSafe of %q with the loader failing at load %d (a fault-free rendering makes %d loads): err=%v after writing %q", name, j, ref.l.calls, r.err, r.w.chunks))
+			}
+			if r.err != nil {
+				// an implementation that loads more often than once per template may fail here; what it wrote is then a prefix (nothing, for ExecuteSafe)
+				if !strings.HasPrefix(full, got) {
+					return core.Violation("not-a-prefix", fmt.Sprintf("safe=%v: %q with the loader failing at load %d returns %v after writing %q, not a prefix of %q", safe, name, j, r.err, got, full))
+				}
+				continue
+			}
+			if got != full {
+				return core.Violation("not-a-prefix", fmt.Sprintf("safe=%v: %q with the loader failing at load %d (a fault-free rendering makes %d loads) returns nil and writes %q, want %q", safe, name, j, ref.l.calls, got, full))
+			}
+		}
+		return core.Okay(true, "late-load")
+	case "once":
+		// ExecuteSafe renders once: stateful callbacks are called as often as by Execute, a root-level set that reads
+		// its own previous value sees the same value, and the bytes delivered are Execute's
+		tpl := c17OnceTpls[c.N[0]]
+		run := func(safe bool) (string, error, int, string) {
+			calls := 0
+			env := stick.New(&stick.MemoryLoader{Templates: c17Tpls_(tpl)})
+			addStdCallbacks(env)
+			env.Functions["count"] = func(ctx stick.Context, args ...stick.Value) stick.Value {
+				calls++
+				return calls
+			}
+			var buf bytes.Buffer
+			var err error
+			pan := ""
+			func() {
+				defer func() {
+					if p := recover(); p != nil {
+						pan = panicInfo(p)
+					}
+				}()
+				ctx := map[string]stick.Value{"n": 1, "s": "s", "l": []stick.Value{1, 2}}
+				if safe {
+					err = env.ExecuteSafe("main", &buf, ctx)
+				} else {
+					err = env.Execute("main", &buf, ctx)
+				}
+			}()
+			return buf.String(), err, calls, pan
+		}
+		o1, e1, c1, p1 := run(false)
+		o2, e2, c2, p2 := run(true)
+		if p1 != "" || p2 != "" {
+			return core.Violation("panic", fmt.Sprintf("%q panicked: %s %s", tpl, p1, p2))
+		}
+		if e1 != nil {
+			if e2 == nil || o2 != "" {
+				return core.Violation("safe-wrote-on-failure", fmt.Sprintf("%q: Execute fails (%v) but ExecuteSafe returns %v and writes %q", tpl, e1, e2, o2))
+			}
+			return core.Okay(true, "fails")
+		}
+		if e2 != nil || o2 != o1 {
+			return core.Violation("safe-differs", fmt.Sprintf("%q: Execute writes %q, ExecuteSafe on the same inputs returns %v and writes %q", tpl, o1, e2, o2))
+		}
+		if c1 != c2 {
+			return core.Violation("safe-differs", fmt.Sprintf("%q: Execute calls the function %d time(s), ExecuteSafe %d time(s)", tpl, c1, c2))
+		}
+		return core.Okay(true, o1)
 	case "rt":
 		site, kind := c.N[0], c.N[1]
 		if site > len(c.Src) {
